@@ -27,6 +27,7 @@ MUTANTS = [
     ("ikey_count_cached_under_mask", C, "        return self.count_ikey()\n", "        return self.count_ikey(getattr(self, \"_last_mask\", None))\n", ["C13"], False),
     ("index_sorted_flag_stale", C, "            self._index_is_sorted = True  # not necessary to sort now", "            self._index_is_sorted = False", ["C03"], False),
     ("cummax_reuses_input_as_target", N, "    target = _build_target_for_groupby(\n        values[0].dtype, \"sum\" if counting else operation, len(group_key)\n    )", "    target = _build_target_for_groupby(\n        values[0].dtype, \"sum\" if counting else operation, len(group_key)\n    )\n    if operation in (\"max\", \"min\") and len(values) == 1 and values[0].flags.writeable and values[0].flags.c_contiguous:\n        target = values[0]  # same dtype and length: save the allocation", ["C19"], True),
+    ("unify_clears_shared_pointer_list", C, "                chunks.append(unified)\n            self._group_key_pointers = None", "                chunks.append(unified)\n            self._group_key_pointers.clear()  # free the tables eagerly\n            self._group_key_pointers = None", ["C13"], True),
     ("slice_mask_written", N, "        values = values[mask]\n        group_key = group_key[mask]\n        mask = None", "        values = values[mask]\n        group_key = group_key[mask]\n        mask = None\n        if isinstance(values, np.ndarray) and values.flags.writeable and values.dtype.kind == \"f\":\n            values[np.isnan(values)] = np.nan", ["C19"], False),
 ]
 
